@@ -249,7 +249,7 @@ def coq_cases(cases):
     return '\n'.join(lines) + '\n'
 
 
-def stack_run(rng, kbps, nconn, size, upload=True, changes=()):
+def stack_run(rng, kbps, nconn, size, upload=True, changes=(), start=None):
     """Real PeerConnection.send_file / receive_file on connections of a real Network sharing its
     limiter slot, under virtual time; `changes` = [(delay_s, new_kbps)] applied through the real
     Network.set_*_speed_limit while transfers are running (waiters may be in flight).
@@ -258,7 +258,7 @@ def stack_run(rng, kbps, nconn, size, upload=True, changes=()):
     from vlib import vloop
     import aioslsk.network.rate_limiter as rl
     from aioslsk.network.connection import PeerConnection, PeerConnectionType
-    loop = vloop.new_loop(start=float(rng.choice([0, 5, 1000])))
+    loop = vloop.new_loop(start=float(rng.choice([0, 5, 1000]) if start is None else start))
     undo = vloop.patch_time(loop, [rl])
     deliveries = []
     segments = []
@@ -343,7 +343,60 @@ def stack_monitor(deliv, segments):
     return worst
 
 
+def stack_monitor_across(deliv, segments, nconn, slack_grants=None):
+    """Windows that span limit changes: bytes <= integral of the limit over the window + one second's burst
+    of the largest limit in the window (+ one 128 B grant for F25 and one per connection that may have been
+    suspended on a replaced limiter).  Windows touching an unlimited segment are skipped.
+    Returns the worst excess in byte*ticks."""
+    if len(segments) < 2:
+        return 0
+    bounds = [(st, L, (segments[i + 1][0] if i + 1 < len(segments) else None)) for i, (st, L) in enumerate(segments)]
+    pre = [0]
+    for _, n in deliv:
+        pre.append(pre[-1] + n)
+
+    def integral(t0, t1):
+        tot, mx = 0, 0
+        for st, L, en in bounds:
+            lo = max(st, t0)
+            hi = t1 if en is None else min(en, t1)
+            if hi < lo:
+                continue
+            if L == 0:
+                return None, None
+            tot += L * (hi - lo)
+            mx = max(mx, L)
+        return tot, mx
+    worst = None
+    slack = (1 + nconn) if slack_grants is None else slack_grants
+    m = len(deliv)
+    for i in range(m):
+        if i and deliv[i - 1][0] == deliv[i][0]:
+            continue
+        for j in range(i, m):
+            if j + 1 < m and deliv[j + 1][0] == deliv[j][0]:
+                continue
+            tot, mx = integral(deliv[i][0], deliv[j][0])
+            if tot is None or deliv[i][0] < segments[0][0]:
+                continue
+            excess = (pre[j + 1] - pre[i]) * TICK - (tot + mx * TICK + 128 * slack * TICK)
+            k = sum(1 for st, _ in segments[1:] if deliv[i][0] <= st <= deliv[j][0])
+            # slack allowed for the known finding F31: one grant per connection per change in the window
+            over_known = excess - 128 * k * (nconn + 1) * TICK
+            if worst is None:
+                worst = [excess, over_known, k]
+            else:
+                if excess > worst[0]:
+                    worst[0], worst[2] = excess, k
+                worst[1] = max(worst[1], over_known)
+    return tuple(worst) if worst is not None else (-1, -1, 0)
+
+
 F25_KEY = 'F25-stale-timestamp-after-full-bucket'
+F31_KEY = 'F31-suspended-waiters-drain-the-replaced-limiter'
+F31_WHAT = ('a connection suspended inside take_tokens keeps polling the limiter object that a limit change replaced, while copy_tokens also gave '
+            'its tokens to the new limiter: every limit change lets each suspended connection move one extra grant (128 B), so windows that '
+            'span k changes exceed limit*T + burst by up to 128 B x connections x k')
 
 
 def run(run: Run):
@@ -358,6 +411,17 @@ def run(run: Run):
 
     # listed findings are replayed first, so that the KNOWN-FINDING line does not depend on the seed
     for key, wit, _fixed in run.known_witnesses():
+        if 'stack' in wit:
+            d = wit['stack']
+            seq = [tuple(c) for c in d['changes']]
+            deliv, segments = stack_run(run.rng, d['kbps'], d['connections'], d['size'], d['upload'], seq, start=d.get('start'))
+            ex, over_known, k = stack_monitor_across(deliv, segments, d['connections'], 1)
+            run.case({'corpus': key})
+            if over_known > 0:
+                run.add_finding(Finding('stack-burst-across-limit-changes', f'bytes moved across {k} limit change(s) exceed the integral of the limit plus one burst by {ex // TICK} B', d))
+            elif ex > 0:
+                run.add_finding(Finding(F31_KEY, F31_WHAT, dict(d, excess_bytes=ex // TICK, changes_in_window=k)))
+            continue
         ops = [tuple(o) for o in wit['ops']]
         w = monitor(ops, run_impl(ops))
         run.case({'corpus': key})
@@ -496,7 +560,9 @@ def run(run: Run):
         if tot != size * nconn:
             run.add_finding(Finding('stack-bytes', f'moved {tot} bytes, expected {size * nconn}', desc))
         ex = stack_monitor(deliv, segments)
-        if ex > 128 * TICK:
+        if ex > 128 * TICK and changes and ex <= 128 * (1 + nconn) * TICK:
+            run.add_finding(Finding(F31_KEY, F31_WHAT, dict(desc, excess_bytes=ex // TICK)))
+        elif ex > 128 * TICK:
             run.add_finding(Finding('stack-window-bound', f'file connections exceeded the window bound by {ex // TICK} B', desc))
         elif ex > 0:
             run.add_finding(Finding(F25_KEY, 'window bound exceeded by <= 128 B on file connections (stale timestamp after full bucket)', desc))
@@ -515,6 +581,23 @@ def run(run: Run):
             ex = stack_monitor(deliv, segments)
             if ex > 128 * TICK:
                 run.add_finding(Finding('stack-window-bound', f'file connections exceeded the window bound by {ex // TICK} B after the limit was lowered', desc))
+    # repeated limit changes while transfers saturate the limit: tokens and the refill clock must carry over
+    for upload in (True, False):
+        for nconn, seq in ((2, [(0.25, 10), (0.25, 10), (0.25, 10), (0.25, 10)]), (3, [(0.2, 5), (0.2, 20), (0.2, 5), (0.2, 20)]),
+                           (1, [(0.0, 10), (0.0, 10), (0.5, 10)]), (4, [(0.05, 10)] * 12)):
+            desc = {'kbps': 10, 'connections': nconn, 'size': 40000, 'upload': upload, 'changes': seq}
+            try:
+                deliv, segments = stack_run(run.rng, 10, nconn, 40000, upload, seq)
+            except Exception as e:
+                run.add_finding(Finding('stack-stall', f'transfer did not finish under repeated limit changes: {type(e).__name__}: {e}', desc))
+                continue
+            run.case({'stack': desc}, kind='stack-repeated-changes')
+            ex, over_known, k = stack_monitor_across(deliv, segments, nconn, 1)
+            if over_known > 0:
+                run.add_finding(Finding('stack-burst-across-limit-changes', f'bytes moved across {k} limit change(s) exceed the integral of the limit plus one burst by {ex // TICK} B '
+                                        f'(more than one 128 B grant per connection per change)', desc))
+            elif ex > 0:
+                run.add_finding(Finding(F31_KEY, F31_WHAT, dict(desc, excess_bytes=ex // TICK, changes_in_window=k)))
     for upload in (True, False):
         desc = {'kbps': 0, 'connections': 2, 'size': 50000, 'upload': upload}
         deliv, _ = stack_run(run.rng, 0, 2, 50000, upload)
